@@ -421,7 +421,7 @@ func (x *exec) havoc(s *State, m *modSet, consts map[*Term]bool, tag string) *St
 	sort.Strings(wkeys)
 	for _, key := range wkeys {
 		so := e.heapSorts[key]
-		h := c.Fresh(tag+".H:"+key, so)
+		h := c.Fresh(tag+".H{"+key+"}", so)
 		consts[h] = true
 		n.heap[key] = h
 	}
@@ -438,7 +438,7 @@ func (x *exec) havoc(s *State, m *modSet, consts map[*Term]bool, tag string) *St
 		so := e.heapSorts[key]
 		h := e.heapGet(s, key, so)
 		for _, r := range rows {
-			f := c.Fresh(tag+".R:"+key, so.Elem)
+			f := c.Fresh(tag+".R{"+key+"}", so.Elem)
 			consts[f] = true
 			h = c.Store(h, r, f)
 		}
@@ -468,7 +468,7 @@ func (x *exec) havoc(s *State, m *modSet, consts map[*Term]bool, tag string) *St
 			if whole {
 				continue
 			}
-			f := c.Fresh(tag+".E:"+key, so.Elem.Elem)
+			f := c.Fresh(tag+".E{"+key+"}", so.Elem.Elem)
 			consts[f] = true
 			h = c.Store(h, pr[0], c.Store(c.Select(h, pr[0]), pr[1], f))
 		}
@@ -503,6 +503,9 @@ func (x *exec) enterLoop(li *loopInfo, s *State) *State {
 			x.oblige("inv-init", loopLabel(li, cl), li.pos, s, g, cl.Text)
 		}
 	}
+	// a critical section that spans the loop head: the guarantee is checked
+	// piecewise (lock..head, head..unlock); see monitor2.go
+	x.monLoopHead(li, s, "init")
 	// 2. modified set by fixpoint of dry runs
 	m := newModSet()
 	var hs *State
@@ -634,6 +637,7 @@ func (x *exec) enterLoop(li *loopInfo, s *State) *State {
 	consts := map[*Term]bool{}
 	hs = x.havoc(s, m, consts, tag)
 	li.snap = s
+	x.monRebase(hs)
 	// 3. assume invariant and automatic facts
 	if cell, lim := x.rangeIndexOf(li, hs); cell != nil {
 		if v, ok := hs.cells[cell].(*Term); ok {
@@ -730,6 +734,22 @@ func loopLabel(li *loopInfo, cl *Clause) string {
 func (x *exec) backEdge(li *loopInfo, s *State) {
 	if li == nil || x.e.dry > 0 {
 		return
+	}
+	x.monLoopHead(li, s, "back")
+	// the set of locks held is the same on every arrival at the loop head
+	if li.snap != nil {
+		c := x.e.C
+		for _, k := range sortedStateKeys(s.held, li.snap.held) {
+			a, ok1 := s.held[k]
+			b, ok2 := li.snap.held[k]
+			if !ok1 {
+				a = c.False()
+			}
+			if !ok2 {
+				b = c.False()
+			}
+			x.oblige("lock", fmt.Sprintf("loop%d.same-locks", li.ordinal), li.pos, s, c.Eq(a, b), "same locks held at the back edge as on loop entry ("+shortHeapKey(k)+")")
+		}
 	}
 	if li.spec == nil {
 		return
@@ -963,6 +983,7 @@ func (x *exec) doAlloc(s *State, a *ssa.Alloc) Value {
 		if ls := e.leavesOf(at.Elem()); len(ls) == 1 || structOf(at.Elem()) != nil || len(ls) > 1 {
 			// arrays live in the element heap so that they can be sliced
 			arr := e.newRef(s, "array")
+			e.localArrays = append(e.localArrays, arr)
 			p := PtrV{Kind: PArr, Arr: arr, T: t}
 			x.zeroArray(s, arr, at)
 			return p
